@@ -2,7 +2,7 @@
 # tools/seed_verify.sh <PROP> <k> : confirm a sub-agent's seeded change in its scratch worktree and store it under /verif/seeded/.
 # Confirms: (a) pristine+demo passes, (b) patch+demo fails, (c) patch alone: baseline suite unchanged (only mul_rk fails).
 set -u
-P=$1; K=$2; W=/tmp/mut/$P; O=$W/_out/$K; D=/verif/seeded/$P-$K
+P=$1; K=$2; W=${MUTROOT:-/tmp/mut}/$P; O=$W/_out/$K; D=/verif/seeded/$P-$K${SUFFIX:-}
 export CARGO_NET_OFFLINE=true
 cd $W || exit 2
 git checkout -q -- . ; git clean -fdq -e _out
@@ -13,7 +13,7 @@ git apply $O/patch.diff || { echo "patch.diff does not apply"; exit 2; }
 ( eval "$CMD" ) > $O/log_b.txt 2>&1; B=$?
 git checkout -q -- . ; git clean -fdq -e _out
 git apply $O/patch.diff
-cargo test --offline --no-fail-fast > $O/log_c.txt 2>&1
+cargo test --offline --no-fail-fast ${EXTRA_FEATURES:-} > $O/log_c.txt 2>&1
 C=$(grep -E "^test result" $O/log_c.txt | tr '\n' ' ')
 FAILED=$(grep -E "^test [A-Za-z0-9_:]+ \.\.\. FAILED" $O/log_c.txt | tr '\n' ' ')
 git checkout -q -- . ; git clean -fdq -e _out
